@@ -137,6 +137,8 @@ fn verif_path_amplification_finding_witness() {
 #[derive(Clone, Debug)]
 struct PacedController {
     edt: Option<Timestamp>,
+    congestion_limited: bool,
+    fast_retransmission: bool,
 }
 
 impl s2n_quic_core::recovery::CongestionController for PacedController {
@@ -148,10 +150,10 @@ impl s2n_quic_core::recovery::CongestionController for PacedController {
         0
     }
     fn is_congestion_limited(&self) -> bool {
-        false
+        self.congestion_limited
     }
     fn requires_fast_retransmission(&self) -> bool {
-        false
+        self.fast_retransmission
     }
     fn on_packet_sent<Pub: congestion_controller::Publisher>(&mut self, _: Timestamp, _: usize, _: Option<bool>, _: &RttEstimator, _: &mut Pub) {}
     fn on_rtt_update<Pub: congestion_controller::Publisher>(&mut self, _: Timestamp, _: Timestamp, _: &RttEstimator, _: &mut Pub) {}
@@ -171,7 +173,7 @@ struct PacedEndpoint;
 impl congestion_controller::Endpoint for PacedEndpoint {
     type CongestionController = PacedController;
     fn new_congestion_controller(&mut self, _: congestion_controller::PathInfo) -> PacedController {
-        PacedController { edt: None }
+        PacedController { edt: None, congestion_limited: false, fast_retransmission: false }
     }
 }
 
@@ -226,7 +228,11 @@ fn verif_path_can_transmit_gate() {
         connection::PeerId::try_from_bytes(&[]).unwrap(),
         connection::LocalId::TEST_ID,
         RttEstimator::new(Duration::from_millis(30)),
-        PacedController { edt: if has_edt { Some(edt) } else { None } },
+        PacedController {
+            edt: if has_edt { Some(edt) } else { None },
+            congestion_limited: kani::any(),
+            fast_retransmission: kani::any(),
+        },
         true,
         mtu::Config::default(),
         ANTI_AMPLIFICATION_MULTIPLIER,
@@ -236,6 +242,12 @@ fn verif_path_can_transmit_gate() {
     path.state = State::AmplificationLimited { tx_allowance: Counter::new(allowance) };
     let limited = path.at_amplification_limit();
     assert!(limited == (allowance == 0));
+    // the constraint handed to every component that wants to write: at the amplification limit
+    // it is AmplificationLimited whatever the congestion controller says - otherwise a "forced"
+    // transmission (CONNECTION_CLOSE, PTO probe) would be let through by a congestion-only verdict
+    let constraint = path.transmission_constraint();
+    assert!((constraint == transmission::Constraint::AmplificationLimited) == limited);
+    kani::cover!(limited && path.congestion_controller.congestion_limited, "at the amplification limit and congestion limited");
     let can = path.can_transmit(now);
     if limited {
         // RFC 9000 8.1: at the limit nothing is started, paced or not
